@@ -6,6 +6,7 @@ import (
 	"fmt"
 	"os"
 	"path/filepath"
+	"regexp"
 	"strings"
 	"sync"
 	"time"
@@ -38,6 +39,7 @@ func C04(c *core.Ctx) {
 		_ = os.WriteFile(filepath.Join(wd, f), []byte("FROM_"+strings.ReplaceAll(f, ".", "_")+"=1\n"), 0o644)
 	}
 	n, invalid := 0, 0
+	invalidBy := map[string]int{} // attribute and reason of the cases that load in no form (they test nothing)
 	attrs := map[string]int{}
 	var mu sync.Mutex
 	_, err = core.ReadDumpParallel(dump+".dump", 8, func(idx int, vars map[string]interface{}) error {
@@ -75,6 +77,7 @@ func C04(c *core.Ctx) {
 		case ea != nil && eb != nil && ec != nil:
 			mu.Lock()
 			invalid++ // the generated case is not a valid model in any form
+			invalidBy[attr+": "+firstLine(ec.Error())]++
 			mu.Unlock()
 			return nil
 		case ec != nil:
@@ -101,6 +104,10 @@ func C04(c *core.Ctx) {
 	c.AddTraces(int64(n))
 	c.Set("cases", n)
 	c.Set("cases_invalid_in_every_form", invalid)
+	c.Set("cases_invalid_in_every_form_by_attribute", invalidBy)
+	for k, v := range invalidBy {
+		c.Logf("loads in no form (%d cases): %s", v, k)
+	}
 	c.Set("cases_per_attribute", attrs)
 	c.Set("exhaustive", true)
 	c.Logf("%d merge cases replayed (%d invalid in every form)", n, invalid)
@@ -108,4 +115,18 @@ func C04(c *core.Ctx) {
 		c.Drift(fmt.Sprintf("%d of %d generated cases do not load in any form: the generator has drifted from the schema", invalid, n))
 	}
 	c.Set("rule", "a case is (attribute, base value, override values) over the attribute table of MC_Merge.tla (all ordered pairs of alternative values, with !override and !reset, triples in thorough); three real loads each; non-trivial when the target differs from the base")
+}
+
+var reCasePath = regexp.MustCompile(`validating \S+: |\[[0-9,]+\]`)
+
+// firstLine: the first line of an error, without the scratch path and the item indexes (so that equal reasons group)
+func firstLine(s string) string {
+	if i := strings.IndexByte(s, '\n'); i >= 0 {
+		s = s[:i]
+	}
+	s = reCasePath.ReplaceAllString(s, "")
+	if len(s) > 160 {
+		s = s[:160]
+	}
+	return s
 }
